@@ -426,8 +426,8 @@ class Scores:
         # Example: We want threshold at 70% TPR. If easy_pos_ratio=60%, then we want
         # the threshold at 25% TPR on the remaining 40% hard positives, since
         # 70% - 60% = 10% is 25% of the remaining 40%
-        all_pos = np.asarray(tpr) >= 1.0  # Rescaling below must not round this away
-        tpr = np.maximum(np.asarray(tpr) - self.easy_pos_ratio, 0.0)
+        all_pos = np.asarray(tpr, dtype=float) >= 1.0  # Rescaling below must not round this away
+        tpr = np.maximum(np.asarray(tpr, dtype=float) - self.easy_pos_ratio, 0.0)
         tpr = np.minimum(tpr / self.hard_pos_ratio, 1.0)
         tpr = np.maximum(tpr, all_pos * 1.0)
         return self._threshold_at_ratio(self.pos, tpr, False, BinaryLabel.pos, method)
@@ -447,7 +447,7 @@ class Scores:
             raise ValueError("Cannot set threshold at FNR with no positive values.")
         # Example: We want the threshold at 5% FNR. If hard_pos_ratio=10%, then we want
         # the threshold at 5% / 0.1 = 50% of the available 10% of hard positives.
-        fnr = np.minimum(np.asarray(fnr) / self.hard_pos_ratio, 1.0)
+        fnr = np.minimum(np.asarray(fnr, dtype=float) / self.hard_pos_ratio, 1.0)
         return self._threshold_at_ratio(self.pos, fnr, True, BinaryLabel.pos, method)
 
     def threshold_at_tnr(self, tnr, *, method: str = "linear"):
@@ -464,8 +464,8 @@ class Scores:
         if len(self.neg) == 0:
             raise ValueError("Cannot set threshold at TNR with no negative values.")
         # See explanation in threshold_at_tpr()
-        all_neg = np.asarray(tnr) >= 1.0  # Rescaling below must not round this away
-        tnr = np.maximum(np.asarray(tnr) - self.easy_neg_ratio, 0.0)
+        all_neg = np.asarray(tnr, dtype=float) >= 1.0  # Rescaling below must not round this away
+        tnr = np.maximum(np.asarray(tnr, dtype=float) - self.easy_neg_ratio, 0.0)
         tnr = np.minimum(tnr / self.hard_neg_ratio, 1.0)
         tnr = np.maximum(tnr, all_neg * 1.0)
         return self._threshold_at_ratio(self.neg, tnr, True, BinaryLabel.neg, method)
@@ -484,7 +484,7 @@ class Scores:
         if len(self.neg) == 0:
             raise ValueError("Cannot set threshold at FPR with no negative values.")
         # See explanation at threshold_at_fnr()
-        fpr = np.minimum(np.asarray(fpr) / self.hard_neg_ratio, 1.0)
+        fpr = np.minimum(np.asarray(fpr, dtype=float) / self.hard_neg_ratio, 1.0)
         return self._threshold_at_ratio(self.neg, fpr, False, BinaryLabel.neg, method)
 
     def threshold_at_topr(self, topr, *, method: str = "linear"):
@@ -506,7 +506,7 @@ class Scores:
             raise ValueError("Cannot set threshold at TOPR without any values.")
         # See explanation at threshold_at_tonr()
         easy_pos_to_total_ratio = self.nb_easy_pos / self.nb_all_samples
-        topr = np.maximum(np.asarray(topr) - easy_pos_to_total_ratio, 0.0)
+        topr = np.maximum(np.asarray(topr, dtype=float) - easy_pos_to_total_ratio, 0.0)
         topr = np.minimum(topr / self.hard_ratio, 1.0)
         return self._threshold_at_ratio(
             concat_scores, topr, False, BinaryLabel.pos, method
@@ -534,7 +534,7 @@ class Scores:
         # threshold at 50% TONR on the 10% of data for which we have scores, since
         # 85% - 80% = 5% is 50% of the 10% data with scores (5% / 10%).
         easy_neg_to_total_ratio = self.nb_easy_neg / self.nb_all_samples
-        tonr = np.maximum(np.asarray(tonr) - easy_neg_to_total_ratio, 0.0)
+        tonr = np.maximum(np.asarray(tonr, dtype=float) - easy_neg_to_total_ratio, 0.0)
         tonr = np.minimum(tonr / self.hard_ratio, 1.0)
         return self._threshold_at_ratio(
             concat_scores, tonr, True, BinaryLabel.neg, method
